@@ -39,15 +39,34 @@ func (g *Gen) thesQueries(seg string, reuse bool) {
 	u := g.univ[seg]
 	nd := g.ndocs[seg]
 	names := append(sortedFieldNames(u.Thes), "nothes")
+	// an ordinary field of the segment is not a thesaurus
+	for _, fn := range sortedFieldNames(u.Fields) {
+		if u.Thes[fn] == nil && len(names) < 6 {
+			names = append(names, fn)
+		}
+	}
+	allLhs := map[string]bool{}
+	for _, ts := range u.Thes {
+		for t := range ts {
+			allLhs[t] = true
+		}
+	}
 	for _, th := range names {
 		var probe [][]byte
 		for _, t := range sortedKeys(u.Thes[th]) {
 			probe = append(probe, []byte(t))
 		}
 		probe = append(probe, absentTerm())
+		if u.Thes[th] == nil {
+			for _, t := range sortedKeys(allLhs) {
+				probe = append(probe, []byte(t))
+			}
+		}
 		g.emit("q thesterms %s %s probe=%s", seg, th, hxList(probe))
-		// synonym fields contribute nothing to the ordinary dictionaries
-		g.emit("q dict %s %s aut=all lo=* hi=* probe=%s", seg, th, hxList(probe))
+		if u.Thes[th] != nil {
+			// synonym fields contribute nothing to the ordinary dictionaries
+			g.emit("q dict %s %s aut=all lo=* hi=* probe=%s", seg, th, hxList(probe))
+		}
 		for _, t := range probe {
 			for _, ex := range g.exclusions(nd) {
 				line := fmt.Sprintf("q thes %s %s %s ex=%s", seg, th, hx(t), ex)
@@ -237,9 +256,18 @@ func (g *Gen) genC11(n int) error {
 			for _, fn := range sortedFieldNames(u.Fields) {
 				terms := sortedKeys(u.Fields[fn])
 				g.emit("q dict %s %s aut=all lo=* hi=* probe=-", seg, fn)
-				for _, t := range terms {
-					g.emit("q post %s %s %s ex=%s fl=111 ops=%s", seg, fn, hx([]byte(t)), g.pick([]string{"nil", "0", "-"}), g.nexts(nd+1))
+				for ti, t := range terms {
+					if ti%3 == 0 {
+						// the usual reuse pattern: a miss, then a hit, handing the objects back each time
+						g.emit("q post %s %s %s ex=nil fl=111 pl=p0 it=i0 ops=N,N", seg, fn, hx(absentTerm()))
+					}
+					pre := ""
+					if ti%2 == 0 {
+						pre = " pl=p0 it=i0"
+					}
+					g.emit("q post %s %s %s ex=%s fl=111%s ops=%s", seg, fn, hx([]byte(t)), g.pick([]string{"nil", "0", "-"}), pre, g.nexts(nd+1))
 				}
+				g.emit("q post %s %s %s ex=nil fl=111 ops=N,N", seg, fn, hx(absentTerm()))
 			}
 			for d := 0; d < nd; d++ {
 				g.emit("q stored %s %d stop=* hold=1", seg, d)
